@@ -60,6 +60,10 @@ Ancestors(c) ==
       \* HTTP exceptions of the application server (named in dtml-raise like the builtins)
       [] c = "Redirect"          -> {"_HTTPMove", "HTTPRedirection", "HTTPException", "Exception", "BaseException", "object"}
       [] c = "NotFound"          -> {"HTTPException", "Exception", "BaseException", "object"}
+      \* two classes of different libraries that happen to bear the same name, "Error" (like shutil.Error and csv.Error): one is
+      \* an OSError, the other a plain Exception.  A handler names a class by its name -- of the class raised or of a base
+      [] c = "ErrorA"            -> {"OSError", "Exception", "BaseException", "object"}
+      [] c = "ErrorB"            -> {"Exception", "BaseException", "object"}
       \* a class outside the Exception branch (KeyboardInterrupt, SystemExit, asyncio.CancelledError, ...)
       [] c = "Cancelled"         -> {"BaseException", "object"}
       [] OTHER                   -> {"Exception", "BaseException", "object"}
@@ -67,6 +71,8 @@ Ancestors(c) ==
 \* the try tag (and the raise tag's body) catch Exception and its subclasses only; anything else passes through every
 \* handler -- but not through a finally body, which is rendered for every way of leaving the try body
 Catchable(c) == c = "Exception" \/ "Exception" \in Ancestors(c)
+\* the name a class bears (what handlers name, what error_type shows)
+NameOf(c) == IF c \in {"ErrorA", "ErrorB"} THEN "Error" ELSE c
 
 Raised(cls, msg) == [k |-> "raise", cls |-> cls, msg |-> msg]
 Returning(v)     == [k |-> "ret", v |-> v]
@@ -696,7 +702,7 @@ RbTry ==
                        Rb(Node.b)>>
     /\ UNCHANGED <<tid, plan, ns, level, calls, ninv, exc, ret, evs, result>>
 
-Matches(cls, name) == name = cls \/ name = "" \/ name \in Ancestors(cls)
+Matches(cls, name) == name = NameOf(cls) \/ name = "" \/ name \in Ancestors(cls)
 
 HandlerIndex(hs, cls) ==
     LET m == {i \in 1..Len(hs) : Matches(cls, hs[i].n)} IN
@@ -718,7 +724,7 @@ TryExc ==
     /\ LET h == IF exc.k = "raise" /\ Top.st = "body" /\ Catchable(exc.cls) THEN HandlerIndex(Top.node.hs, exc.cls) ELSE 0 IN
        IF h = 0
        THEN Abandon(exc)          \* not caught here (DTReturn, no handler, or raised in handler/else)
-       ELSE LET f == Frame("inst", ("error_type" :> Str(exc.cls)) @@ ("error_value" :> Str(exc.msg))
+       ELSE LET f == Frame("inst", ("error_type" :> Str(NameOf(exc.cls))) @@ ("error_value" :> Str(exc.msg))
                                    @@ ("error_tb" :> Str("tb"))) IN
             /\ ns' = Append(SubSeq(ns, 1, Top.base), f)
             /\ evs' = evs \o PopEvs(Len(ns), Top.base) \o <<PushEv("inst", Top.base + 1)>>
